@@ -46,6 +46,20 @@ def bounded_task():
     return Task(f"{PROP}.Bd.markdown", PROP, "real markdown", run)
 
 
+def pages_task():
+    def run():
+        from bounded import c17
+        t0 = time.time()
+        hit = c17.search(nrandom=0, names=("three levels", "basic"))
+        r = OR(id=f"{PROP}.Bd.site.references_on_static_pages", status=REFUTED if hit else PROVED, kind="Bd", role="bounded", target="ford.main with page_dir (whole site)",
+               desc="[[...]] references written on static pages at three nesting depths link to the entity's page (every link of the written pages is followed)",
+               bound="2 page directories", cases=2, seconds=time.time() - t0, backend="enumeration")
+        if hit:
+            r.replay, r.witness = hit, hit["input"]
+        return [r]
+    return Task(f"{PROP}.Bd.static_pages", PROP, "static pages", run)
+
+
 def build(tier, seed):
     set_tier(tier)
     def _w(mk):
@@ -57,7 +71,8 @@ def build(tier, seed):
         mk2.__name__ = mk.__name__
         return mk2
     tasks = [a_task(PROP, _w(links.find_in_list)), a_task(PROP, _w(links.project_find_tail)), a_task(PROP, _w(links.convert_link_lookup)), link_re_task(),
-             Task(f"{PROP}.S.kind_tables", PROP, "LINK_TYPES / SUBLINK_TYPES", lambda: links.kind_tables(PROP)), bounded_task()]
+             Task(f"{PROP}.S.kind_tables", PROP, "LINK_TYPES / SUBLINK_TYPES", lambda: links.kind_tables(PROP)), bounded_task(), pages_task(),
+             Task(f"{PROP}.S.static_pages", PROP, "PageNode.__init__", lambda: __import__("contracts.pages", fromlist=["x"]).convert_path_obligation(PROP))]
     meta = {
         "trusted_base": TRUSTED_BASE,
         "assumptions": PYVC_ASSUMPTIONS + REVC_ASSUMPTIONS + [
